@@ -30,4 +30,6 @@ def main : IO Unit := do
   match SExp.parse first.trimAscii.toString with
   | some (.list [.atom "model", .atom "notify"]) =>
     loop h out ({} : Notify.Center) Notify.driverStep {}
+  | some (.list [.atom "model", .atom "geom"]) =>
+    loop h out ({} : Geom.World) Geom.driverStep {}
   | _ => out.putStrLn "unknown-model"
